@@ -335,6 +335,14 @@ func objectFor(t *rapid.T, o *spec.Spec, env *model.Env, budget int) (any, bool)
 				continue
 			}
 			want := p.Required && !hasDefault[i]
+			if !want && budget <= -2 {
+				switch p.Type.Kind {
+				case spec.KObject, spec.KRef, spec.KScope, spec.KList, spec.KMap, spec.KOneOfS, spec.KOneOfI, spec.KAny:
+					// far below the size budget only what the rules demand is generated: optional members that can
+					// hold objects would keep cyclic object graphs growing (the draw below favours "supply")
+					continue
+				}
+			}
 			if !want {
 				prob := 2
 				if budget <= 0 {
